@@ -104,7 +104,7 @@ def main():
             obligations = coqrun.count_obligations(vfiles)
         except Exception:
             pass
-    hy = coqrun.hygiene()
+    hy = coqrun.hygiene(vfiles or None)
     if hy:
         broken.append({"kind": "hygiene", "name": "forbidden construct in the development", "detail": hy})
     allowed = set(getattr(mod, "ALLOWED_AXIOMS", []))
